@@ -28,8 +28,6 @@ def handlerFor : String → Option (Sexp → String)
   | "C20" => some DrvC06.handleBoth
   | "C03" => some DrvC03.handle
   | "C10" => some DrvC10.handle
-  | "C07" => some DrvC05.handle
-  | "C20" => some DrvC05.handle
   | "C17" => some DrvC16.handle
   | "C15" => some DrvC15.handle
   | _ => none
